@@ -33,7 +33,7 @@ CONSTANTS Alphabet,     \* "core" | "extended" | "structural" | "markup" | "full
 
 -----------------------------------------------------------------------------
 Core == {
-  "SP", "NL", "NLNL", "NL_SP_NL", "TAB",
+  "SP", "NL", "NLNL", "NL_SP_NL", "TAB", "CR", "CRNL",
   "=", "==", "*", ":", "{|", "|}", "|", "||", "!!", "|+", "|-",
   "[[", "]]", "[", "''", "a", "1", "_", "<", "&", "EBAD", "NUL" }
 
